@@ -113,14 +113,29 @@ class Gen:
             return ['logzero', ['*', ['var', rng.choice(['u', 'p0'])], ['+', ['num', 1.0], ['*', b, b]]]]
         if k == 'pow':
             b = s(depth - 1)
+            if rng.random() < 0.3:
+                # the exponent is a parameter itself (fixed or free): its value in force at evaluation time counts
+                return ['pow', ['+', ['num', 1.0], ['*', b, b]], ['beta', rng.choice(['bf0', 'bf1', 'b3'])]]
             return ['pow', ['+', ['num', 1.0], ['*', b, b]], ['sin', s(depth - 1)]]
         if k == 'cmp':
             return self.boolean(depth - 1)
         if k == 'logic':
-            return [rng.choice(['and', 'or']), self.boolean(depth - 1), self.boolean(depth - 1)]
+            def operand():
+                # truth is "non-zero": operands other than 0/1 are legal (a count, a parameter, a constant)
+                r_ = rng.random()
+                if r_ < 0.65:
+                    return self.boolean(depth - 1)
+                if r_ < 0.85:
+                    return ['num', rng.choice([2.5, -1.0, 0.0, 12.0, 1.0])]
+                # (no parameter among the operands: the engine declares a logical operator on parameters not differentiable)
+                return ['var', rng.choice(INT_COLS)]
+            return [rng.choice(['and', 'or']), operand(), operand()]
         if k == 'in':
-            return ['in', ['var', rng.choice(INT_COLS)],
-                    sorted({float(rng.randrange(-2, 4)) for _ in range(rng.randrange(1, 4))})]
+            # the set may hold non-integer elements (legal: the audit only warns)
+            elems = {float(rng.randrange(-2, 4)) for _ in range(rng.randrange(1, 4))}
+            if rng.random() < 0.4:
+                elems |= {rng.choice([0.5, 2.25, -1.5, 1.75])}
+            return ['in', ['var', rng.choice(INT_COLS)], sorted(elems)]
         if k == 'elem':
             keys = [1, 2, 3]
             return ['elem', {str(kk): s(depth - 1) for kk in keys}, ['var', 'ch']]
